@@ -47,6 +47,7 @@ class Func:
         self.name = name
         self.insns = []
         self.labels = {}
+        self.numlabels = {}      # numeric local labels: name -> instruction indices (1: ... 1b / 1f)
 
 
 def _split_args(s):
@@ -86,7 +87,10 @@ def parse(text, comment="@"):
         mm = re.match(r"([.\w$]+):\s*(.*)$", s)
         if mm:
             lab, s = mm.group(1), mm.group(2).strip()
-            if lab in globs or not lab.startswith(".L"):
+            if lab.isdigit():
+                if cur is not None:
+                    cur.numlabels.setdefault(lab, []).append(len(cur.insns))
+            elif lab in globs or not lab.startswith(".L"):
                 cur = Func(lab)
                 funcs[lab] = cur
             elif cur is not None:
@@ -140,6 +144,8 @@ class Machine:
         self.steps = 0
         self.written, self.rbw = set(), set()      # registers written / read before being written since reset_tracking()
         self.oob = []                              # accesses outside the state object and the own stack frame
+        self.tflag = None
+        self.pc = 0
 
     def const(self, v):
         return const_bits(v & ((1 << self.W) - 1), self.W)
@@ -216,25 +222,30 @@ class Machine:
         for lab, idx in fn.labels.items():
             at.setdefault(idx, []).append(lab)
         pc, first = start, True
+        first0 = isinstance(stop_idx, (set, frozenset))     # a set of stop indices: do not stop on the starting instruction
         while True:
             if not first and pc in at:
                 for lab in at[pc]:
                     if lab in stop_labels:
                         return lab
             first = False
-            if stop_idx is not None and pc == stop_idx:
+            if stop_idx is not None and not first0 and (pc in stop_idx if isinstance(stop_idx, (set, frozenset)) else pc == stop_idx):
                 return "idx"
+            first0 = False
             if pc >= len(fn.insns):
                 raise Unsupported("fell off the end of %s" % fn.name)
             self.steps += 1
             if self.steps > max_steps:
                 raise Unsupported("step budget exhausted")
             ins = fn.insns[pc]
+            self.pc = pc
             r = self.isa.step(self, ins)
             if r is None:
                 pc += 1
             elif r == "ret":
                 return "ret"
+            elif r[0] == "jumpidx":
+                pc = r[1]
             else:
                 lab = r[1]
                 if lab in stop_labels:
@@ -844,6 +855,134 @@ class M68k:
         return self.retval == link0
 
 
+class PtrHalf:
+    """one byte of a 16-bit pointer held in an AVR register pair"""
+    __slots__ = ("ptr", "half")
+
+    def __init__(self, ptr, half):
+        self.ptr, self.half = ptr, half
+
+    def __eq__(self, o):
+        return isinstance(o, PtrHalf) and (self.ptr, self.half) == (o.ptr, o.half)
+
+    def __hash__(self):
+        return hash((self.ptr, self.half))
+
+
+class Avr:
+    """AVR (avr-gcc conventions: r1 = 0, arguments in r25:r24, r22; Z = r31:r30)"""
+    ZERO_REGS = ()
+    W = 8
+    name = "AVR5"
+    comment = ";"
+    SP = "sp"
+    SAVED = ["r%d" % k for k in range(2, 18)] + ["r28", "r29"]
+    SCRATCH = ["r0", "r18", "r19", "r20", "r21", "r23", "r24", "r25", "r26", "r27"]
+    PAIRS = {"x": ("r26", "r27"), "y": ("r28", "r29"), "z": ("r30", "r31")}
+
+    def canon(self, r):
+        return r.lower()
+
+    def _pair_ptr(self, mc, name):
+        lo, hi = self.PAIRS[name]
+        a, b = mc.rd(lo), mc.rd(hi)
+        if not (isinstance(a, PtrHalf) and isinstance(b, PtrHalf) and a.ptr == b.ptr and (a.half, b.half) == (0, 1)):
+            raise Unsupported("%s does not hold a pointer" % name.upper())
+        return a.ptr
+
+    def _mem(self, mc, s):
+        mm = re.fullmatch(r"([xyzXYZ])(?:\+(\d+))?", s.replace(" ", ""))
+        if not mm:
+            raise Unsupported("address %s" % s)
+        p = self._pair_ptr(mc, mm.group(1).lower())
+        return (p.region, p.off + int(mm.group(2) or 0))
+
+    def _c(self, mc):
+        if mc.flags is None:
+            raise Unsupported("carry flag read before it is defined")
+        return mc.flags
+
+    def step(self, mc, ins):
+        op, a = ins.op, ins.args
+        if op in ("ldd", "ld"):
+            mc.wr(a[0], mc.load(self._mem(mc, a[1])))
+        elif op in ("std", "st"):
+            mc.store(self._mem(mc, a[0]), mc.rd(a[1]))
+        elif op == "push":
+            sp = mc.rd("sp")
+            mc.store((sp.region, sp.off - 1), mc.rd(a[0]), sp_after=sp.off - 1)
+            mc.wr("sp", PtrVal(sp.region, sp.off - 1))
+        elif op == "pop":
+            sp = mc.rd("sp")
+            mc.wr(a[0], mc.load((sp.region, sp.off)))
+            mc.wr("sp", PtrVal(sp.region, sp.off + 1))
+        elif op == "mov":
+            mc.wr(a[0], mc.rd(a[1]))
+        elif op == "movw":
+            d, r = int(a[0][1:]), int(a[1][1:])
+            lo, hi = mc.rd("r%d" % r), mc.rd("r%d" % (r + 1))
+            mc.wr("r%d" % d, lo)
+            mc.wr("r%d" % (d + 1), hi)
+        elif op in ("eor", "and", "or"):
+            f = {"eor": w_xor, "and": w_and, "or": w_or}[op]
+            mc.wr(a[0], f(mc.bits(mc.rd(a[0]), ins.text), mc.bits(mc.rd(a[1]), ins.text)))
+        elif op == "com":
+            mc.wr(a[0], w_not(mc.bits(mc.rd(a[0]), ins.text)))
+            mc.flags = affine.ONEBIT
+        elif op == "ldi":
+            mc.wr(a[0], mc.const(_imm(a[1])))
+        elif op in ("sub", "subi"):
+            x = mc.cint(mc.rd(a[0]), ins.text)
+            y = _imm(a[1]) if op == "subi" else mc.cint(mc.rd(a[1]), ins.text)
+            mc.wr(a[0], mc.const(x - y))
+            mc.flags = affine.ONEBIT if (y & 0xff) > x else affine.ZERO
+        elif op == "swap":
+            v = mc.bits(mc.rd(a[0]), ins.text)
+            mc.wr(a[0], tuple(v[4:]) + tuple(v[:4]))
+        elif op in ("lsr", "ror", "lsl", "rol"):
+            v = mc.bits(mc.rd(a[0]), ins.text)
+            cin = affine.ZERO if op in ("lsr", "lsl") else self._c(mc)
+            if op in ("lsr", "ror"):
+                mc.flags = v[0]
+                mc.wr(a[0], tuple(v[1:]) + (cin,))
+            else:
+                mc.flags = v[7]
+                mc.wr(a[0], (cin,) + tuple(v[:7]))
+        elif op == "adc":
+            v, o = mc.bits(mc.rd(a[0]), ins.text), mc.rd(a[1])
+            if mc.cint(o, ins.text) != 0:
+                raise Unsupported("addition %s" % ins.text)
+            c = self._c(mc)
+            if v[0] == affine.ZERO:
+                mc.wr(a[0], (c,) + tuple(v[1:]))
+                mc.flags = affine.ZERO
+            elif c != affine.ZERO:
+                raise Unsupported("carry propagation in %s" % ins.text)
+        elif op == "bst":
+            mc.tflag = mc.bits(mc.rd(a[0]), ins.text)[_imm(a[1])]
+        elif op == "bld":
+            v, k = list(mc.bits(mc.rd(a[0]), ins.text)), _imm(a[1])
+            v[k] = mc.tflag
+            mc.wr(a[0], tuple(v))
+        elif op == "cpse":
+            if mc.cint(mc.rd(a[0]), ins.text) == mc.cint(mc.rd(a[1]), ins.text):
+                return ("jumpidx", mc.pc + 2)
+        elif op == "rjmp":
+            mm = re.fullmatch(r"(\d+)([bf])", a[0])
+            if not mm:
+                return ("jump", a[0])
+            idxs = mc.fn.numlabels.get(mm.group(1), [])
+            c = [i for i in idxs if i <= mc.pc] if mm.group(2) == "b" else [i for i in idxs if i > mc.pc]
+            if not c:
+                raise Unsupported("label %s not found" % a[0])
+            return ("jumpidx", max(c) if mm.group(2) == "b" else min(c))
+        elif op == "ret":
+            return "ret"
+        else:
+            raise Unsupported("instruction %s" % ins.text)
+        return None
+
+
 def affine_sym(name, w):
     return tuple(affine.atom_bit((name, k)) for k in range(w))
 
@@ -1113,3 +1252,177 @@ def rule_rounds(rep, rid, name):
                       "frame: %s" % (isa.name, "; ".join(oob[:4])))
     else:
         rep.instance(rid, 1, {"backend": name, "footprint": "state bytes 0..39 and the own frame at or above the stack pointer only"})
+
+
+def rule_avr_rounds(rep, rid):
+    """The AVR5 ascon_permute is a counted loop: the prologue turns first_round
+    into the round constant ((15 - r) << 4 | r) kept in a register, one
+    iteration applies a round and subtracts 15 from it, and the loop is left
+    when it reaches 0x3c (round 12).  The state bytes are big-endian in place
+    (direct-XOR layout), partly held in registers.  Decided, for r = 0..11:
+    running the prologue with first_round = r and then ONE iteration leaves
+    (i) the loop-control constants equal to those the prologue computes for
+    r + 1 (or leaves the loop, r = 11), and (ii) a state with
+    decode(epilogue(.)) = round_r(decode(M)) as polynomials in the 320 state
+    bits, when every register outside the carried state holds an unrelated
+    symbol at the loop head; (iii) prologue(epilogue(R)) = R for a symbolic
+    carried state, so iterations compose; (iv) epilogue(prologue(M)) = M with
+    r2-r17, r28, r29, r1 = 0 and the stack pointer restored; accesses stay
+    inside the 40 state bytes and the own frame."""
+    from . import repo
+    from .rules_c08 import spec_round, bytes_to_words, words_to_bytes
+    rel = "src/core/ascon-asm-avr5.S"
+    path = os.path.join(repo.REPO, rel)
+    txt = open(path).read().replace("#include <avr/io.h>", "")
+    tmp = os.path.join(repo.scratch(), "avr5-noio.S")
+    open(tmp, "w").write(txt)
+    p = repo.run(["clang", "-E", "-undef", "-x", "assembler-with-cpp", "-D__AVR__", "-D__AVR_ARCH__=5",
+                  "-I", os.path.join(repo.REPO, "src", "core"), tmp])
+    isa = Avr()
+    funcs = parse(p.stdout.decode(errors="replace"), comment=isa.comment)
+    fn = funcs.get("ascon_permute")
+    name = "avr5"
+    if fn is None:
+        rep.broken.append("%s: ascon_permute not found in the preprocessed %s" % (rid, rel))
+        return
+    decode = layout_decoder("direct")
+    back = [i for i in fn.insns if i.op == "rjmp" and re.fullmatch(r"\d+b", i.args[0])]
+    if len(back) != 1:
+        rep.unproved_item(rid, "avr5: %d backward jumps in ascon_permute (one round loop expected)" % len(back))
+        return
+    head = max(k for k in fn.numlabels[back[0].args[0][:-1]] if k <= back[0].idx)
+    exit_idx = back[0].idx + 1
+
+    def where(idx):
+        return "%s:%d" % (path, fn.insns[idx].line)
+    M = {off: tuple(affine.atom_bit(("S", off, k)) for k in range(8)) for off in range(40)}
+    atoms = set(("S", k, j) for k in range(40) for j in range(8))
+    saved0 = {r: affine_sym("saved_" + r, 8) for r in isa.SAVED}
+    allm = []
+
+    def dep(v):
+        return isinstance(v, tuple) and any(a in atoms for bit in v for mono in bit for a in mono)
+
+    def entry(cells, first_round):
+        mc = Machine(fn, isa)
+        allm.append(mc)
+        mc.regs = dict(saved0)
+        mc.regs["sp"] = PtrVal("stack", 0)
+        mc.regs["r1"] = mc.const(0)
+        mc.regs["r24"], mc.regs["r25"] = PtrHalf(PtrVal("state", 0), 0), PtrHalf(PtrVal("state", 0), 1)
+        mc.regs["r22"] = mc.const(first_round)
+        for off, v in cells.items():
+            mc.mem[("state", off)] = tuple(v)
+        return mc
+
+    def finished_ok(mc, r):
+        return r == "ret" and mc.regs.get("sp") == PtrVal("stack", 0) and all(mc.regs.get(x) == saved0[x] for x in saved0) and \
+            isinstance(mc.regs.get("r1"), tuple) and to_int(mc.regs["r1"]) == 0
+    try:
+        P = []
+        for r in range(12):
+            mc = entry(M, r)
+            mc.run(0, stop_idx=head)
+            P.append(mc)
+        p0 = P[0]
+        cand = sorted(r for r, v in p0.regs.items() if dep(v))
+        for r in range(1, 12):
+            if any(P[r].regs.get(x) != p0.regs[x] for x in cand) or any(P[r].mem.get(k) != v for k, v in p0.mem.items()):
+                rep.violation(rid, "avr5:prologue%d" % r, where(0), "AVR5 ascon_permute: the prologue loads a different state for "
+                              "first_round = %d than for first_round = 0" % r)
+                return
+        consts = [{x: v for x, v in P[r].regs.items() if isinstance(v, tuple) and to_int(v) is not None} for r in range(12)]
+        # (iii) + carried set
+        def mentions(v, nm):
+            return isinstance(v, tuple) and any(a[0] == nm for bit in v for mono in bit for a in mono)
+        R = Machine(fn, isa)
+        allm.append(R)
+        R.regs = dict(p0.regs)
+        R.mem = dict(p0.mem)
+        for x in cand:
+            R.regs[x] = affine_sym("R_" + x, 8)
+        for off in M:
+            R.mem[("state", off)] = affine_sym("Rm_%d" % off, 8)
+        want_regs = {x: R.regs[x] for x in cand}
+        want_state = {off: R.mem[("state", off)] for off in M}
+        if not finished_ok(R, R.run(exit_idx)):
+            rep.violation(rid, "avr5:epilogue", where(exit_idx), "AVR5 ascon_permute: the epilogue does not restore r2-r17, r28, r29, r1 "
+                          "= 0 or the stack pointer")
+            return
+        final = [R.mem[("state", off)] for off in M]
+        sregs = [x for x in cand if any(mentions(v, "R_" + x) for v in final)]
+        stale = set(off for off in M if not mentions(R.mem[("state", off)], "Rm_%d" % off))
+        if len(sregs) + len(M) - len(stale) != 40:
+            rep.unproved_item(rid, "avr5: the state is carried in %d registers and %d memory bytes" % (len(sregs), len(M) - len(stale)))
+            return
+        rep.instance(rid, 1, {"backend": name, "carried_registers": sregs, "carried_in_place": len(M) - len(stale)})
+        b2 = entry({off: R.mem[("state", off)] for off in M}, 0)
+        b2.run(0, stop_idx=head)
+        if any(b2.regs.get(x) != want_regs[x] for x in sregs) or any(b2.mem.get(("state", off)) != want_state[off] for off in M if off not in stale):
+            rep.violation(rid, "avr5:carried-state", where(0), "AVR5 ascon_permute: prologue(epilogue(R)) differs from R: the loop "
+                          "iterations do not compose")
+        else:
+            rep.instance(rid, 1, {"backend": name, "carried_state": "prologue and epilogue are mutually inverse"})
+        # (iv)
+        ep = Machine(fn, isa)
+        allm.append(ep)
+        ep.regs, ep.mem = dict(p0.regs), dict(p0.mem)
+        if not (finished_ok(ep, ep.run(exit_idx)) and all(ep.mem.get(("state", off)) == M[off] for off in M)):
+            rep.violation(rid, "avr5:epilogue", where(exit_idx), "AVR5 ascon_permute: the epilogue does not store back what the prologue loaded")
+        else:
+            rep.instance(rid, 1, {"backend": name, "epilogue": "inverse of the prologue; r2-r17, r28, r29, r1 and sp restored"})
+        before = bytes_to_words(decode(M))
+    except Unsupported as e:
+        rep.unproved_item(rid, "avr5: prologue / epilogue not interpretable: %s" % e)
+        return
+    for r in range(12):
+        try:
+            mc = Machine(fn, isa)
+            allm.append(mc)
+            for x, v in P[r].regs.items():
+                keep = x in sregs or not isinstance(v, tuple) or v == saved0.get(x) or x in consts[r]
+                mc.regs[x] = v if keep else affine_sym("junk_" + x, 8)
+            for x in isa.SCRATCH:
+                if x not in mc.regs:
+                    mc.regs[x] = affine_sym("junk_" + x, 8)
+            mc.mem = dict(P[r].mem)
+            for off in stale:
+                mc.mem[("state", off)] = affine_sym("stale_%d" % off, 8)
+            got = mc.run(head, stop_idx={head, exit_idx})
+            at = mc.pc if got == "idx" else None
+            # where did it stop?  run() returns "idx" for either; the program counter tells which
+            stopped_at_head = got == "idx" and fn.insns[mc.pc].op == "rjmp"
+            if got != "idx":
+                raise Unsupported("the iteration for round %d returned" % r)
+            if r < 11:
+                if not stopped_at_head:
+                    rep.violation(rid, "avr5:round%d:loop" % r, where(back[0].idx), "AVR5 ascon_permute: the loop is left after round %d" % r)
+                    continue
+                badc = [x for x in sorted(mc.rbw) if x in consts[r + 1] and mc.regs.get(x) != consts[r + 1][x]]
+                if badc:
+                    rep.violation(rid, "avr5:round%d:control" % r, where(back[0].idx), "AVR5 ascon_permute: after the iteration for "
+                                  "round %d register(s) %s do not hold the loop-control constants of round %d" % (r, ", ".join(badc), r + 1))
+                    continue
+            elif stopped_at_head:
+                rep.violation(rid, "avr5:round11:loop", where(back[0].idx), "AVR5 ascon_permute: the loop is not left after round 11")
+                continue
+            if not finished_ok(mc, mc.run(exit_idx)):
+                rep.violation(rid, "avr5:round%d:abi" % r, where(head), "AVR5 ascon_permute: after the iteration for round %d the epilogue "
+                              "no longer restores the saved registers / stack pointer" % r)
+                continue
+            after = decode({off: mc.mem[("state", off)] for off in M})
+            want = words_to_bytes(spec_round(before, r))
+            diff = [k for k in range(320) if after[k] != want[k]]
+            if diff:
+                rep.violation(rid, "avr5:round%d" % r, where(head), "the loop iteration of the AVR5 ascon_permute with the constants of "
+                              "round %d is not the specification's round %d: %d of 320 state bits differ as polynomials (first in word %d)" % (
+                                  r, r, len(diff), diff[0] // 64))
+            else:
+                rep.instance(rid, 1, {"backend": name, "round": r})
+        except Unsupported as e:
+            rep.unproved_item(rid, "avr5: round %d: %s" % (r, e))
+    oob = sorted(set(x for mc in allm for x in mc.oob))
+    if oob:
+        rep.violation(rid, "avr5:footprint", path, "AVR5 ascon_permute touches memory outside the 40-byte state and its own stack frame: %s" % "; ".join(oob[:4]))
+    else:
+        rep.instance(rid, 1, {"backend": name, "footprint": "state bytes 0..39 and the own frame only"})
